@@ -56,7 +56,64 @@ def gen_sqlrange(repo, out):
     return emit_file(os.path.join(out, "SqlRange.v"), hdr, units)
 
 
-ALL = {"Slice": gen_slice, "SqlRange": gen_sqlrange}
+def gen_names(repo, out):
+    """TU7: the f-string and statement order of GenericConcreteEngine.get_relation_name."""
+    import ast
+    import hashlib
+    from pylite import Refuse, find_function
+    f = os.path.join(repo, "python/lsst/daf/relation/_engine.py")
+    fn, src = find_function(f, "GenericConcreteEngine", "get_relation_name")
+    body = [s_ for s_ in fn.body if not (isinstance(s_, ast.Expr) and isinstance(s_.value, ast.Constant))]
+    steps, parts = [], None
+    for st in body:
+        if isinstance(st, ast.Assign) and len(st.targets) == 1 and isinstance(st.targets[0], ast.Name) \
+                and st.targets[0].id == "name" and isinstance(st.value, ast.JoinedStr):
+            parts = []
+            for v in st.value.values:
+                if isinstance(v, ast.Constant) and isinstance(v.value, str):
+                    if not all(ch.isalnum() or ch in "_-" for ch in v.value):
+                        raise Refuse(f"unexpected literal {v.value!r} in the name f-string")
+                    parts.append(f'NLit "{v.value}"')
+                elif isinstance(v, ast.FormattedValue):
+                    e = ast.unparse(v.value)
+                    spec = ast.unparse(v.format_spec) if v.format_spec is not None else None
+                    if e == "prefix" and spec is None:
+                        parts.append("NPrefix")
+                    elif e == "self.relation_name_counter" and spec in ("f'04d'", "'04d'"):
+                        parts.append("NCounter 4")
+                    elif e == "uuid.uuid4().hex" and spec is None:
+                        parts.append("NUuidHex")
+                    else:
+                        raise Refuse(f"unexpected component {e!r} (format {spec}) in the name f-string")
+                else:
+                    raise Refuse("unexpected f-string component")
+            steps.append("SBuildName")
+        elif isinstance(st, ast.AugAssign) and ast.unparse(st.target) == "self.relation_name_counter" \
+                and isinstance(st.op, ast.Add) and ast.unparse(st.value) == "1":
+            steps.append("SIncrCounter")
+        elif isinstance(st, ast.Return) and ast.unparse(st.value) == "name":
+            steps.append("SReturn")
+        else:
+            raise Refuse(f"unexpected statement in get_relation_name: {ast.unparse(st)[:60]}")
+    if parts is None:
+        raise Refuse("no `name = f'...'` assignment in get_relation_name")
+    text = ("(* GENERATED by /verif/translate from the working tree of /repo — DO NOT EDIT.\n"
+            f"   source digest {hashlib.sha256(src.encode()).hexdigest()[:16]} *)\n"
+            "From DR Require Import Spec.NameParts.\nFrom Coq Require Import String List.\nImport ListNotations.\nOpen Scope string_scope.\n\n"
+            "(* from _engine.py :: GenericConcreteEngine.get_relation_name *)\n"
+            f"Definition name_parts : list npart := [{'; '.join(parts)}].\n"
+            f"Definition name_steps : list nstep := [{'; '.join(steps)}].\n")
+    path = os.path.join(out, "Names.v")
+    try:
+        old = open(path).read()
+    except FileNotFoundError:
+        old = None
+    if old != text:
+        open(path, "w").write(text)
+    return hashlib.sha256(src.encode()).hexdigest()[:16]
+
+
+ALL = {"Slice": gen_slice, "SqlRange": gen_sqlrange, "Names": gen_names}
 
 
 def generate(repo, out, only=None):
